@@ -46,7 +46,8 @@ BYTE_WRITERS = ("write_header_and_update_offset", "update_row_count", "Write")
 
 # rules that keep their verdict however the code is laid out (decided by term equality, effect analysis or dominance over
 # resolved calls); every other rule of this check is a template rule (vcheck.core.Check.obt)
-SEMANTIC = ('R03.1a', 'R03.1b', 'R03.1c', 'R03.1e', 'R03.2b', 'R03.2c', 'R03.2d', 'R03.2f', 'R03.3d', 'R03.4c', 'R03.5', 'R03.8')
+SEMANTIC = ('R03.1a', 'R03.1b', 'R03.1c', 'R03.1e', 'R03.2b', 'R03.2c', 'R03.2d', 'R03.2f', 'R03.3d', 'R03.4c', 'R03.5', 'R03.8',
+            'R03.6::esutil.sfile.write::append=')
 
 
 def run(chk):
@@ -189,6 +190,123 @@ def _is_notnone(v):
     return _nonempty_str(v)
 
 
+def _as_dict_literal(v):
+    """an ast.Dict with constant keys for `{...}` / `dict(k=v, ...)` whose keys are all known, else None"""
+    if isinstance(v, ast.Dict) and all(isinstance(k, ast.Constant) for k in v.keys):
+        return v
+    if isinstance(v, ast.Call) and isinstance(v.func, ast.Name) and v.func.id == "dict" and not v.args \
+            and all(k.arg is not None for k in v.keywords):
+        return ast.Dict(keys=[ast.Constant(value=k.arg) for k in v.keywords], values=[k.value for k in v.keywords])
+    return None
+
+
+def _dict_with(d, key, val):
+    """copy of dict literal d with d[key] = val"""
+    keys, vals = list(d.keys), list(d.values)
+    for i, k in enumerate(keys):
+        if type(k.value) is type(key.value) and k.value == key.value:
+            vals[i] = val
+            break
+    else:
+        keys.append(key)
+        vals.append(val)
+    return ast.Dict(keys=keys, values=vals)
+
+
+def _dict_lookup(d, key):
+    """value of `d[key]` for a dict literal with constant keys and a constant key (last entry wins); None if absent"""
+    hit = None
+    for k, v in zip(d.keys, d.values):
+        try:
+            if k.value == key.value and hash(k.value) == hash(key.value):
+                hit = v
+        except TypeError:
+            return None
+    return hit
+
+
+_IMMUTABLE_LIT = (ast.Constant,)
+_READ_ONLY_METHODS = ("get", "keys", "values", "items", "index", "count", "copy")
+_modconst_memo = {}
+
+
+def _is_literal(v):
+    if isinstance(v, ast.Constant):
+        return True
+    if isinstance(v, (ast.Tuple, ast.List, ast.Set)):
+        return all(_is_literal(x) for x in v.elts)
+    if isinstance(v, ast.Dict):
+        return all(k is not None and isinstance(k, ast.Constant) for k in v.keys) and all(_is_literal(x) for x in v.values)
+    return False
+
+
+def _module_const(mod, name):
+    """the literal a module-level name is bound to for the whole life of the module: bound exactly once (at module level, to a
+    literal built from constants), never rebound, declared global, deleted, aliased, passed on or mutated through a method /
+    subscript store (so a dispatch table `_MODES = {False: 'w', True: 'r+'}` reads as its entries); else None"""
+    key = (id(mod), name)
+    if key in _modconst_memo:
+        return _modconst_memo[key]
+    _modconst_memo[key] = None
+    v = mod.consts.get(name)
+    if v is None or not _is_literal(v):
+        return None
+    binds = 0
+    for x in ast.walk(mod.tree):
+        if isinstance(x, ast.Name) and x.id == name and not isinstance(x.ctx, ast.Load):
+            binds += 1
+        elif isinstance(x, (ast.Global, ast.Nonlocal)) and name in x.names:
+            return None
+        elif isinstance(x, (ast.FunctionDef, ast.AsyncFunctionDef, ast.ClassDef)) and x.name == name:
+            return None
+        elif isinstance(x, ast.arg) and x.arg == name:
+            binds += 1          # shadowed somewhere: keep it simple
+        elif isinstance(x, ast.alias) and (x.asname or x.name.split(".")[0]) == name:
+            return None
+        elif isinstance(x, ast.ExceptHandler) and x.name == name:
+            return None
+    if binds != 1:
+        return None
+    if not (isinstance(v, ast.Constant) or (isinstance(v, ast.Tuple) and all(isinstance(e, ast.Constant) for e in v.elts))):
+        # a mutable literal: every read must be a plain lookup
+        for p in ast.walk(mod.tree):
+            for c in ast.iter_child_nodes(p):
+                if isinstance(c, ast.Name) and c.id == name and isinstance(c.ctx, ast.Load):
+                    ok = (isinstance(p, ast.Subscript) and p.value is c and isinstance(p.ctx, ast.Load)) \
+                        or (isinstance(p, ast.Compare) and c in p.comparators) \
+                        or (isinstance(p, ast.Call) and isinstance(p.func, ast.Name) and p.func.id in ("len", "sorted", "tuple", "frozenset"))
+                    if isinstance(p, ast.Attribute) and p.value is c and p.attr in _READ_ONLY_METHODS:
+                        ok = True
+                    if not ok:
+                        return None
+    _modconst_memo[key] = v
+    return v
+
+
+def _free_consts(fi):
+    """{name: literal} for the module-level constants (see _module_const) a function reads as free variables"""
+    local = set(p.lstrip("*") for p in fi.params)
+    loads = set()
+    for x in ast.walk(fi.node):
+        if isinstance(x, ast.Name):
+            (loads if isinstance(x.ctx, ast.Load) else local).add(x.id)
+        elif isinstance(x, ast.arg):
+            local.add(x.arg)
+        elif isinstance(x, (ast.Global, ast.Nonlocal)):
+            local.update(x.names)
+        elif isinstance(x, ast.ExceptHandler) and x.name:
+            local.add(x.name)
+        elif isinstance(x, ast.alias):
+            local.add(x.asname or x.name.split(".")[0])
+    out = {}
+    for nm in loads - local:
+        if nm in fi.module.consts:
+            v = _module_const(fi.module, nm)
+            if v is not None:
+                out[nm] = v
+    return out
+
+
 _CMP = {ast.Eq: lambda a, b: a == b, ast.NotEq: lambda a, b: a != b, ast.Lt: lambda a, b: a < b, ast.LtE: lambda a, b: a <= b,
         ast.Gt: lambda a, b: a > b, ast.GtE: lambda a, b: a >= b, ast.In: lambda a, b: a in b, ast.NotIn: lambda a, b: a not in b}
 
@@ -243,6 +361,18 @@ class _Fold(ast.NodeTransformer):
                 and isinstance(n.value.value, (str, tuple)) and isinstance(n.slice.value, int):
             try:
                 return ast.Constant(value=n.value.value[n.slice.value])
+            except IndexError:
+                return n
+        if isinstance(n, ast.Subscript) and isinstance(n.slice, ast.Constant) and _as_dict_literal(n.value) is not None \
+                and not any(isinstance(x, ast.Call) for x in ast.walk(n.value)):
+            hit = _dict_lookup(_as_dict_literal(n.value), n.slice)
+            if hit is not None:
+                return copy.deepcopy(hit)
+        if isinstance(n, ast.Subscript) and isinstance(n.value, (ast.Tuple, ast.List)) and isinstance(n.slice, ast.Constant) \
+                and isinstance(n.slice.value, int) and not isinstance(n.slice.value, bool) \
+                and not any(isinstance(x, (ast.Starred, ast.Call)) for x in ast.walk(n.value)):
+            try:
+                return copy.deepcopy(n.value.elts[n.slice.value])
             except IndexError:
                 return n
         return n
@@ -375,6 +505,24 @@ class _PX:
         return cl
 
     # -- expressions ------------------------------------------------------
+    def keywords(self, c, loc, heap):
+        """{keyword: value} of a call; `**d` with d a dict built in the function from literal keys (`{...}`, `dict(k=v)`,
+        later `d['k'] = v` / `d.update(k=v)`) contributes its entries, any other `**d` is kept under the key '**' (the
+        keywords of the call are then not all known)"""
+        kw = {}
+        for k in c.keywords:
+            v = self.subst(k.value, loc, heap)
+            if k.arg:
+                kw[k.arg] = v
+                continue
+            d = _as_dict_literal(v)
+            if d is not None and all(isinstance(x.value, str) for x in d.keys):
+                for x, y in zip(d.keys, d.values):
+                    kw[x.value] = y
+            else:
+                kw["**"] = v
+        return kw
+
     def note(self, e, fi, loc, st):
         evs = []
         for c in _walk_expr(e):
@@ -383,7 +531,7 @@ class _PX:
                 evs.append(dict(kind="call", name=call_name(c), dotted=dotted_name(f),
                                 recv=self.subst(f.value, loc, st.heap) if isinstance(f, ast.Attribute) else None,
                                 args=[self.subst(a, loc, st.heap) for a in c.args],
-                                kw={k.arg: self.subst(k.value, loc, st.heap) for k in c.keywords if k.arg},
+                                kw=self.keywords(c, loc, st.heap),
                                 fn=fi, line=getattr(c, "lineno", 0), nfacts=len(st.facts), nev=len(st.events)))
         if not evs:
             return st
@@ -448,6 +596,12 @@ class _PX:
             for tt, p in zip(t.elts, parts):
                 loc, st = self.assign(tt.value if isinstance(tt, ast.Starred) else tt, p, fi, loc, st, line)
             return loc, st
+        if isinstance(t, ast.Subscript) and isinstance(t.value, ast.Name) and _as_dict_literal(loc.get(t.value.id)) is not None:
+            # d['k'] = v on a dict the function built from literal keys
+            key = self.subst(t.slice, loc, st.heap)
+            loc = dict(loc)
+            loc[t.value.id] = _dict_with(_as_dict_literal(loc[t.value.id]), key, val) if isinstance(key, ast.Constant) else self.fresh()
+            return loc, st
         k = _hkey(t)
         if k is not None:
             heap = {h: v for h, v in st.heap.items() if not (h.startswith(k + ".") or h.startswith(k + "["))}
@@ -457,6 +611,28 @@ class _PX:
         return loc, st
 
     # -- statements -----------------------------------------------------------
+    def mutated(self, e, loc, st):
+        """locals after the expression statement `d.update(...)` / `d.setdefault(...)` / `d.pop(...)` ... on a dict the
+        function built from literal keys: update with literal keys is followed, anything else makes the dict unknown"""
+        if not (isinstance(e, ast.Call) and isinstance(e.func, ast.Attribute) and isinstance(e.func.value, ast.Name)):
+            return loc
+        nm, meth = e.func.value.id, e.func.attr
+        d = _as_dict_literal(loc.get(nm))
+        if d is None or meth in _READ_ONLY_METHODS:
+            return loc
+        loc = dict(loc)
+        new = None
+        if meth == "update" and len(e.args) <= 1 and all(k.arg for k in e.keywords):
+            src = _as_dict_literal(self.subst(e.args[0], loc, st.heap)) if e.args else ast.Dict(keys=[], values=[])
+            if src is not None:
+                new = d
+                for k, v in zip(src.keys, src.values):
+                    new = _dict_with(new, k, v)
+                for k in e.keywords:
+                    new = _dict_with(new, ast.Constant(value=k.arg), self.subst(k.value, loc, st.heap))
+        loc[nm] = new if new is not None else self.fresh()
+        return loc
+
     def stmt(self, fi, n, loc, st, stack):
         """[(loc, state, raised)] after the simple statement of CFG node n"""
         a = n.ast
@@ -490,7 +666,8 @@ class _PX:
                 out.append((loc2, st3, False))
             return out
         if isinstance(a, ast.Expr):
-            return [(loc, st2, raised) for _, st2, raised in self.ev(a.value, fi, loc, st, stack)]
+            loc2 = self.mutated(a.value, loc, st)
+            return [(loc if raised else loc2, st2, raised) for _, st2, raised in self.ev(a.value, fi, loc, st, stack)]
         if isinstance(a, ast.Delete):
             heap = dict(st.heap)
             loc2 = dict(loc)
@@ -521,6 +698,9 @@ class _PX:
         """[(kind, value, state)] with kind 'return' | 'raise' for every path through fi"""
         st = st or _St()
         stack = stack or (fi.qualname,)
+        consts = _free_consts(fi)
+        if consts:
+            loc = dict(consts, **loc)       # module-level constants read as free variables stand for their literal
         cfg = cfg_of(fi)
         out = []
         work = [(cfg.entry, loc, st, ())]
@@ -704,6 +884,30 @@ def _path_words(e):
     return "`%s` %s" % (r, ("after " + "+".join(sorted(ex))) if ex else "as given (no ~ / $VAR expansion)")
 
 
+def _mode_alternatives(v, fi, depth=0):
+    """the expressions a mode expression can evaluate to: both arms of a conditional expression, every entry of a dispatch
+    table (a dict / tuple literal, or a module-level constant bound to one) that is indexed or .get()-ed"""
+    if depth > 3:
+        return [v]
+    if isinstance(v, ast.IfExp):
+        return _mode_alternatives(v.body, fi, depth + 1) + _mode_alternatives(v.orelse, fi, depth + 1)
+    if isinstance(v, ast.Name) and v.id in _free_consts(fi):
+        return _mode_alternatives(_free_consts(fi)[v.id], fi, depth + 1)
+    tab, extra = None, []
+    if isinstance(v, ast.Subscript):
+        tab = v.value
+    elif isinstance(v, ast.Call) and isinstance(v.func, ast.Attribute) and v.func.attr == "get" and v.args:
+        tab, extra = v.func.value, list(v.args[1:2])
+    if tab is not None:
+        if isinstance(tab, ast.Name) and tab.id in _free_consts(fi):
+            tab = _free_consts(fi)[tab.id]
+        d = _as_dict_literal(tab)
+        entries = list(d.values) if d is not None else (list(tab.elts) if isinstance(tab, (ast.Tuple, ast.List)) else None)
+        if entries is not None:
+            return [y for e in entries + extra for y in _mode_alternatives(e, fi, depth + 1)]
+    return [v]
+
+
 # ---------------------------------------------------------------------------
 def r03_1(chk, repo, sf_write, SFile_open, Rec_open, cfun):
     """mode selection for append"""
@@ -748,9 +952,9 @@ def r03_1(chk, repo, sf_write, SFile_open, Rec_open, cfun):
             elif isinstance(x, ast.keyword) and x.arg == "mode":
                 vals = [x.value]
             for v in vals:
-                for y in ([v.body, v.orelse] if isinstance(v, ast.IfExp) else [v]):
+                for y in _mode_alternatives(v, fi):
                     if isinstance(y, ast.Constant) and isinstance(y.value, str):
-                        origin.add((y.value, fi.where(y)))
+                        origin.add((y.value, fi.where(y) if hasattr(y, "lineno") else fi.where(x)))
     ctor = cfun["Records::Records"]
     ccfg = cfront.CCFG(ctor)
     cview = ccfg.view()
@@ -846,6 +1050,8 @@ def r03_1(chk, repo, sf_write, SFile_open, Rec_open, cfun):
                     continue
                 seen.add((m.value, has_dtype))
                 needs = eval_c_string_cond(demand, "mMode", m.value)
+                if not has_dtype and "**" in e["kw"] and needs is not False:
+                    needs = None        # keywords passed through a mapping that is not known entry by entry
                 chk.ob("R03.1b", "ctor-mode::%s::dtype=%s" % (m.value, has_dtype), True if (has_dtype or needs is False) else (None if needs is None else False),
                        "%s:%s" % (SFile_open.where().rsplit(":", 1)[0], e["line"]),
                        "mode %r reaches the record-file constructor %s a dtype; the C++ constructor %s one for it"
@@ -1764,13 +1970,13 @@ def _c_members_in(n):
     return {m for m in (_c_member_name(x) for x in cfront.walk(n) if x.get("kind") == "MemberExpr") if m}
 
 
-def _c_local_defs(decl):
-    """{local: rendered initialiser / assigned value} for locals of a function that are defined exactly once"""
+def _c_local_def_nodes(decl):
+    """{local: initialiser / assigned expression (AST node)} for locals of a function that are defined exactly once"""
     defs = {}
     for x in cfront.walk(decl):
         if x.get("kind") == "VarDecl" and x.get("name") and x.get("inner"):
             init = [c for c in x["inner"] if isinstance(c, dict) and c.get("kind") and not c["kind"].endswith("Attr")]
-            defs.setdefault(x["name"], []).append(_c_text(init[-1]) if init else None)
+            defs.setdefault(x["name"], []).append(init[-1] if init else None)
         elif x.get("kind") == "VarDecl" and x.get("name"):
             defs.setdefault(x["name"], [])
         elif x.get("kind") in ("BinaryOperator", "CompoundAssignOperator") and x.get("opcode", "").endswith("=") \
@@ -1778,12 +1984,31 @@ def _c_local_defs(decl):
             l = cfront.strip(x["inner"][0])
             if l.get("kind") == "DeclRefExpr":
                 nm = l.get("referencedDecl", {}).get("name")
-                defs.setdefault(nm, []).append(_c_text(x["inner"][1]) if x.get("opcode") == "=" else None)
+                defs.setdefault(nm, []).append(x["inner"][1] if x.get("opcode") == "=" else None)
         elif x.get("kind") == "UnaryOperator" and x.get("opcode") in ("++", "--"):
             l = cfront.strip(x["inner"][0])
             if l.get("kind") == "DeclRefExpr":
                 defs.setdefault(l.get("referencedDecl", {}).get("name"), []).append(None)
     return {k: v[0] for k, v in defs.items() if len(v) == 1 and v[0] is not None}
+
+
+def _c_local_defs(decl):
+    """{local: rendered initialiser / assigned value} for locals of a function that are defined exactly once"""
+    return {k: _c_text(v) for k, v in _c_local_def_nodes(decl).items()}
+
+
+def _c_members_through(n, defnodes, seen=None):
+    """members of `this` an expression reads, directly or through locals that are defined exactly once (a loop bound or an
+    fwrite count hoisted into `const long long nrows = mNrows;` is still bounded by mNrows)"""
+    seen = set() if seen is None else seen
+    out = set(_c_members_in(n))
+    for x in cfront.walk(n):
+        if x.get("kind") == "DeclRefExpr":
+            nm = x.get("referencedDecl", {}).get("name")
+            if nm in defnodes and nm not in seen:
+                seen.add(nm)
+                out |= _c_members_through(defnodes[nm], defnodes, seen)
+    return out
 
 
 def _c_expand(text, defs):
@@ -1861,11 +2086,12 @@ def r03_8(chk, cfun, ceff, measures):
     try:
         for nm, d in funcs:
             fmtbufs = ceff.fmt_buffers(d)
+            defnodes = _c_local_def_nodes(d)
             for c in cfront.calls_in(d):
                 if cfront.callee_name(c) == "fwrite":
                     args = cfront.call_args(c)
                     if len(args) == 4 and cfront.render(args[3]) not in ("stderr", "stdout"):
-                        counts |= _c_members_in(args[1]) | _c_members_in(args[2])
+                        counts |= _c_members_through(args[1], defnodes) | _c_members_through(args[2], defnodes)
             for x in cfront.walk(d):
                 if x.get("kind") in ("ForStmt", "WhileStmt", "DoStmt") and x.get("inner"):
                     inner = x["inner"]
@@ -1879,7 +2105,7 @@ def r03_8(chk, cfun, ceff, measures):
                         continue
                     emits = any(any(e.startswith("out") for s in ceff.call_events(c, fmtbufs) for e in s) for c in cfront.calls_in(body))
                     if emits:
-                        counts |= _c_members_in(cond)
+                        counts |= _c_members_through(cond, defnodes)
     except _TooBig:
         counts = set()
     # what those members are set to, as an extent of the array handed to Write
@@ -1931,7 +2157,42 @@ def _mode_cases(m, truth):
         k, pol = _atom(m.test)
         if k[0] == "truth":
             return [(pol, m.body.value), (not pol, m.orelse.value)]
+    sel = _bool_index(m)
+    if sel is not None:
+        flag, pol, on_true, on_false = sel
+        k, p = _atom(flag)
+        if "append" in norm(flag) and k[0] == "truth":
+            pol = pol == p
+            return [(a, v) for a, v in ((pol, on_true), (not pol, on_false)) if truth is None or a == truth]
     return [(truth, "<expr %s>" % norm(m)[:40])]
+
+
+def _bool_index(m):
+    """(flag, polarity, value when the index is True, value when it is False) for a two-way dispatch table indexed by the truth
+    of a flag: `{False: a, True: b}[bool(flag)]`, `(a, b)[bool(flag)]`, `(a, b)[not flag]` (the index is a genuine bool: it is
+    wrapped in bool() or not); None for anything else"""
+    if not isinstance(m, ast.Subscript):
+        return None
+    e, pol, isbool = m.slice, True, False
+    while True:
+        if isinstance(e, ast.UnaryOp) and isinstance(e.op, ast.Not):
+            e, pol, isbool = e.operand, not pol, True
+        elif isinstance(e, ast.Call) and isinstance(e.func, ast.Name) and e.func.id == "bool" and len(e.args) == 1 and not e.keywords:
+            e, isbool = e.args[0], True
+        else:
+            break
+    if not isbool:
+        return None
+    d = _as_dict_literal(m.value)
+    if d is not None:
+        t, f = _dict_lookup(d, ast.Constant(value=True)), _dict_lookup(d, ast.Constant(value=False))
+    elif isinstance(m.value, (ast.Tuple, ast.List)) and len(m.value.elts) == 2:
+        f, t = m.value.elts
+    else:
+        return None
+    if isinstance(t, ast.Constant) and isinstance(f, ast.Constant):
+        return e, pol, t.value, f.value
+    return None
 
 
 def _is_key_lookup(v, key):
@@ -1959,7 +2220,8 @@ def r03_6(chk, repo, sf_write, cfun):
             for assumed, val in _mode_cases(m, _append_truth(st, e["nfacts"])):
                 if assumed is None or assumed == flagval:
                     got.add(val)
-        chk.ob("R03.6", "esutil.sfile.write::append=%s::mode" % flagval, got == {want} if ctor else None, sf_write.where(),
+        unrec = any(not isinstance(v, str) or v.startswith(("<expr ", "<default>")) for v in got)
+        chk.ob("R03.6", "esutil.sfile.write::append=%s::mode" % flagval, (None if unrec else got == {want}) if ctor else None, sf_write.where(),
                "append=%s selects mode %r for the SFile constructor (found %s)" % (flagval, want, sorted(map(str, got))))
     # the data argument reaches sf.write unmodified together with header
     ok = bool(ctor)
